@@ -1,5 +1,6 @@
 """The compute tie: the implementation's observables vs the Coq model (Compute.v)
 on the same inputs, evaluated by vm_compute inside coqc."""
+import numpy as np
 from . import common
 from .common import cz, clist, copt, cbool
 from . import impl
@@ -109,6 +110,8 @@ def coq_nav_case(d, case):
 
 def to_scaled(x, case):
     den = case.get('den') or 2 ** case.get('scale', 0)
+    if isinstance(x, (int, np.integer)) and not isinstance(x, (bool, np.bool_)):
+        return int(x) * den                 # exact: 64-bit integers do not survive a trip through float
     v = float(x) * den
     r = int(round(v))
     if r != v:
